@@ -30,7 +30,11 @@ T_CLIENT = os.path.join(TEMPLATES, 'c16_client.d.ts.tmpl')
 NODE_DRIVER = os.path.join(TEMPLATES, 'c16_js_client_driver.mjs')
 NODE = '/usr/bin/node'
 
-RULE = ('generated specs of every specgen preset (plus hand seeds under corpus/C16) x the option sets of the four '
+RULE = ('generated specs of every specgen preset, the grid family (every type shape: primitive, struct, subtype root '
+        'and leaf, union, local / foreign alias incl. alias of alias, nullable, list, map x every position: field, '
+        'defaulted field, variant, alias target, route argument / result / error, parent; same type and route names in '
+        'two namespaces, an alias-only namespace) and the attribute family (route schemas of every JSON-printable '
+        'attribute type x adversarial values x attribute order), plus hand seeds under corpus/C16, x the option sets of the four '
         'backends (tsd_types: single file / file per namespace / --export-namespaces / --exclude_error_types; '
         'tsd_client: --import-namespaces, --wrap-response-in, --wrap-error-in, -a; js_client: --request-options, '
         'wrap options, -a, -c). Per spec: random IR types through the four type mappers; every output scanned '
@@ -976,6 +980,65 @@ def x_chain(dt):
     return out
 
 
+def x_tags(st):
+    """the `.tag` values of a struct of an enumerated-subtypes tree: a root carries the tags of every struct below it,
+    a subtype the tag its parent lists it under"""
+    if enumerated_of(st):
+        out, queue = [], list(enumerated_of(st))
+        while queue:
+            f = queue.pop(0)
+            out.append(f.name)
+            queue.extend(enumerated_of(f.data_type))
+        return sorted(out)
+    return sorted(f.name for f in enumerated_of(st.parent_type) if f.data_type is st)
+
+
+def cell_of(t, here):
+    """'wrapper:core' of a type reference seen from namespace `here` (^ = defined in another namespace)"""
+    ir = _ir()
+    wrapper = None
+    while True:
+        if isinstance(t, ir.Nullable):
+            w, nxt = 'null', t.data_type
+        elif isinstance(t, ir.List):
+            w, nxt = 'list', t.data_type
+        elif isinstance(t, ir.Map):
+            w, nxt = 'map', t.value_data_type
+        elif isinstance(t, ir.Alias):
+            w, nxt = ('alias' if t.namespace.name == here else '^alias'), t.data_type
+        else:
+            break
+        wrapper = wrapper or w
+        t = nxt
+    far = '' if not hasattr(t, 'namespace') or t.namespace.name == here else '^'
+    if isinstance(t, ir.Struct):
+        core = ('root' if enumerated_of(t) else 'leaf' if x_in_tree(t) else 'struct')
+    elif isinstance(t, ir.Union):
+        core = 'union'
+    else:
+        core = type(t).__name__ if type(t).__name__ in ('Timestamp', 'Void', 'Bytes') else 'prim'
+    return '%s:%s%s' % (wrapper or 'plain', far, core)
+
+
+def cells_of(api):
+    """{'position:wrapper:core'} -- which type shapes occur in which positions of this API"""
+    ir, out = _ir(), set()
+    for ns in api.namespaces.values():
+        for dt in ns.data_types:
+            struct = isinstance(dt, ir.Struct)
+            if dt.parent_type is not None:
+                out.add('extends_%s:%s' % ('struct' if struct else 'union', cell_of(dt.parent_type, ns.name)))
+            for f in dt.fields:
+                pos = ('field_default' if f.has_default else 'field') if struct else 'variant'
+                out.add('%s:%s' % (pos, cell_of(f.data_type, ns.name)))
+        for a in ns.aliases:
+            out.add('alias:%s' % cell_of(a.data_type, ns.name))
+        for r in ns.routes:
+            for pos, t in (('arg', r.arg_data_type), ('result', r.result_data_type), ('error', r.error_data_type)):
+                out.add('route_%s:%s' % (pos, cell_of(t, ns.name)))
+    return out
+
+
 def docs_close_comment(api):
     """some doc string or attribute value of the spec contains `*/` (ends the generated comment early)"""
     def bad(s):
@@ -995,6 +1058,19 @@ def docs_close_comment(api):
     return False
 
 
+def attr_comment_has_newline(api, argv):
+    """some route attribute named by a `-a` option has a value whose text contains a line break"""
+    names = [argv[i + 1] for i, a in enumerate(argv[:-1]) if a == '-a']
+    return any('\n' in str(r.attrs[n]) for ns in api.namespaces.values() for r in ns.routes for n in names
+               if (r.attrs or {}).get(n) is not None)
+
+
+def py_repr_misread_by_js(s):
+    """what a JavaScript engine reads from Python's repr() of `s`: repr() writes non-printable characters outside the
+    BMP as `\\UXXXXXXXX`, which JavaScript takes for the letter U followed by eight digits"""
+    return ''.join('U%08x' % ord(c) if ord(c) > 0xFFFF and not c.isprintable() else c for c in s)
+
+
 class Judge:
     def __init__(self, api, ck=None):
         self.api = api
@@ -1002,6 +1078,7 @@ class Judge:
         self.problems = []          # (what, signature, detail)
         self.ir = _ir()
         self.injected = docs_close_comment(api)
+        self.unmodelled = None      # set by a judgement whose cause lies in a text layer the Lean model does not have
 
     def P(self, what, sig, **detail):
         if self.injected and sig.get('kind') in ('malformed_output', 'js_syntax'):
@@ -1094,6 +1171,28 @@ class Judge:
                             self.P('%s optional=%s but nullable=%s default=%s' % (
                                 where, got[0][2], x_strip(f.data_type)[1], f.has_default),
                                 {'kind': 'optional_mismatch', 'backend': 'tsd_types', 'via': via}, field=f.name)
+                    if x_in_tree(dt):
+                        # the polymorphic reference type `<Name>Reference`: declared once, extends the struct, and its
+                        # '.tag' member lists exactly the tags of the struct
+                        rname = dt.name + 'Reference'
+                        refs = by.get((ns.name, rname), [])
+                        where = 'tsd_types[%s] %s.%s' % (label, ns.name, rname)
+                        if rname in clash:
+                            self.stat('hinj.tsd_types.skipped')
+                        elif len(refs) != 1:
+                            self.P('%s is declared %d times' % (where, len(refs)),
+                                   {'kind': 'missing_declaration' if not refs else 'duplicate_declaration',
+                                    'backend': 'tsd_types', 'type_kind': 'struct_reference'},
+                                   type='%s.%s' % (ns.name, dt.name))
+                        else:
+                            tagm = [canon(m[1]) for m in refs[0]['members'] if m[0] == '.tag']
+                            lits = sorted(tagm[0][1]) if len(tagm) == 1 and tagm[0][0] == 'lits' else None
+                            if refs[0]['kind'] != 'interface' or [list(e) for e in refs[0]['ext']] != [[None, dt.name]] \
+                                    or lits != x_tags(dt):
+                                self.P("%s: extends %s with '.tag' %s, expected extends %s with the tags %s" % (
+                                    where, refs[0]['ext'], tagm, dt.name, x_tags(dt)),
+                                    {'kind': 'member_type', 'backend': 'tsd_types', 'type_kind': 'struct_reference'},
+                                    type='%s.%s' % (ns.name, dt.name))
                 else:
                     d = one(dt, 'union')
                     if d is None:
@@ -1235,6 +1334,12 @@ class Judge:
                         self.P('%s: member %s optional=%s but nullable=%s' % (where, f.name, got[0][2], nullable),
                                {'kind': 'optional_mismatch', 'backend': 'js_types', 'type_kind': kind_word},
                                member=f.name)
+                if kind_word == 'struct' and x_in_tree(dt):
+                    tagm = [canon(m[1]) for m in mem.get('.tag', [])]
+                    lits = sorted(tagm[0][1]) if len(tagm) == 1 and tagm[0][0] == 'lits' else None
+                    if lits != x_tags(dt):
+                        self.P('%s: .tag is %s, expected the subtype tags %s' % (where, tagm, x_tags(dt)),
+                               {'kind': 'member_type', 'backend': 'js_types', 'type_kind': 'struct_tags'})
                 if kind_word == 'union':
                     tagm = [canon(m[1]) for m in mem.get('.tag', [])]
                     want = ['lits', [f.name for f in members]]
@@ -1309,23 +1414,30 @@ class Judge:
                         route=[ns.name, r.name, r.version])
                 else:
                     call = canon_call(rec['calls'][0])
-                    bad = None
+                    bad, cause = None, None
                     if len(call) != len(want):
                         bad = 'arity'
                     else:
+                        misread = []                             # per wrong attribute: explained by the \U escape?
                         for i, (g, w) in enumerate(zip(call, want)):
                             if isinstance(w, tuple):
                                 if not (isinstance(g, tuple) and same_value(g[1], w[1])):
-                                    bad = 'attrs'
+                                    bad = bad or 'attrs'
+                                    misread.append(isinstance(g, tuple) and isinstance(w[1], str)
+                                                   and isinstance(g[1], str) and g[1] == py_repr_misread_by_js(w[1]))
                             elif g != w:
                                 bad = 'url' if i == 0 else ('arg' if i == 1 else 'options')
-                            if bad:
                                 break
+                        if bad == 'attrs' and all(misread):
+                            cause = 'python_U_escape'
                     if not bad and rec.get('ret') != {'$m': 'ret'}:
                         bad = 'return'
                     if bad:
-                        self.P('%s calls request(%s), expected request(%s)' % (where, call, want),
-                               {'kind': 'route_call', 'backend': 'js_client', 'what': bad},
+                        sig = {'kind': 'route_call', 'backend': 'js_client', 'what': bad}
+                        if cause:
+                            sig['cause'] = cause
+                            self.unmodelled = cause
+                        self.P('%s calls request(%s), expected request(%s)' % (where, call, want), sig,
                                route=[ns.name, r.name, r.version], got=repr(call), want=repr(want))
             # JSDoc types of the comment
             want_arg = None if void else canon(x_js_type(r.arg_data_type))
@@ -1486,6 +1598,8 @@ def prepare(ck, key, files, full, root):
     ck.hist('c16.namespaces', len(api.namespaces))
     ck.hist('c16.types', min(ntypes // 5 * 5, 40))
     ck.hist('c16.routes', min(nroutes // 3 * 3, 30))
+    for cell in cells_of(api):
+        ck.hist('c16.cell', cell)                                # number of specs in which the cell occurs
     # mapper jobs
     from stone.backends import js_helpers, tsd_helpers
     tys = random_types(api, ck.rng, ck.scale(24, 60))
@@ -1606,7 +1720,13 @@ def settle(ck, pd, reply, node_recs, check_syntax):
         ck.case(('run', str(pd.key), backend, label), pd.nontrivial)
         suite = 'decl.js.%s' % backend
         if status == 'crash':
-            if 'error' in mrep and mrep['error'].split(':')[0] == payload['exc']:
+            comment_newline = (payload['exc'] == 'AssertionError' and 'newline' in payload['message']
+                               and attr_comment_has_newline(pd.api, argv))
+            if comment_newline:
+                # emit() refuses the `-a` comment line of an attribute value with a line break; the comment text
+                # layer is not modelled, so only the oracle speaks about this run
+                ck.stat('not_compared.attribute_comment_newline')
+            elif 'error' in mrep and mrep['error'].split(':')[0] == payload['exc']:
                 ck.agree(suite)
             else:
                 ck.disagree(suite, case, payload, mrep if 'error' in mrep else 'ok')
@@ -1614,6 +1734,8 @@ def settle(ck, pd, reply, node_recs, check_syntax):
                 ck.stat('refused.name_conflict')
                 continue
             sig = {'kind': 'backend_crash', 'backend': backend, 'exc': payload['exc'], 'site': payload['site']}
+            if comment_newline:
+                sig['cause'] = 'attribute_comment_newline'
             m = re.search(r'Object of type (\w+) is not JSON serializable', payload['message'])
             if m:
                 sig['value_type'] = m.group(1)
@@ -1666,7 +1788,12 @@ def settle(ck, pd, reply, node_recs, check_syntax):
             if not js_declared:
                 js_declared = {'Error', 'UserMessage', 'Timestamp'} | {x_js_name(dt) for ns in pd.api.namespaces.values()
                                                                          for dt in ns.data_types}
+            judge.unmodelled = None
             sc = judge.js_client(label, opts, files, nrec, js_declared)
+            if judge.unmodelled:
+                # the escaping of string literals is not modelled (the model takes attribute values as they are)
+                ck.stat('not_compared.%s' % judge.unmodelled)
+                suite = 'decl.js.not_compared'
             if 'ok' in mrep and nrec is not None and nrec.get('ok'):
                 rec = {r['name']: r for r in nrec['routes']}
                 real_fns = sorted(({'name': f['name'], 'params': f['params'], 'arg': canon(f['arg']),
@@ -1731,6 +1858,228 @@ def run_specs(ck, specs, full, syntax_every):
     ck.stat('node.modules_evaluated', len(paths))
     for i, (pd, rep) in enumerate(zip(pending, replies)):
         settle(ck, pd, rep, node_recs, bool(syntax_every) and i % syntax_every == 0 and ('all' if i % (2 * syntax_every) else 'plain'))
+
+
+# ----------------------------------------------------------------------------------------------
+# grid family: every type shape x every position a type can occur in, with the same type and route names in two
+# namespaces and an alias-only namespace (coverage-driven widening: specgen reaches exotic route types, foreign
+# aliases in routes and alias-only namespaces in well under 1% of its specs)
+# ----------------------------------------------------------------------------------------------
+
+def _g_types(mark):
+    """the user types of one grid namespace; `mark` makes the members of gbase and guse differ, so a declaration that
+    resolves a name in the wrong namespace shows as a member difference"""
+    return '''struct Plain
+    id_%(m)s String
+
+struct Root
+    union
+        leaf_a LeafA
+        leaf_b LeafB
+    rid_%(m)s String
+
+struct LeafA extends Root
+    a_%(m)s Int32
+
+struct LeafB extends Root
+    b_%(m)s Int32?
+
+struct Solo
+    union_closed
+        only_%(m)s OnlyLeaf
+    sid String
+
+struct OnlyLeaf extends Solo
+    o Boolean
+
+union Choice
+    none
+    one_%(m)s Plain
+
+union_closed Shut
+    yes
+    no_%(m)s
+
+alias Text = String
+alias PlainRef = Plain
+alias RootRef = Root
+alias Roots = List(Root)
+alias MaybePlain = Plain?
+alias Hop = PlainRef
+''' % {'m': mark}
+
+
+G_GBASE = 'namespace gbase\n\n' + _g_types('b') + '''
+route r0(Plain, Root, Choice)
+
+route r1:2(Void, Roots, Void)
+'''
+
+G_GALIAS = '''namespace galias
+
+import gbase
+
+alias Id = String
+alias Far = gbase.Root
+alias FarHop = gbase.Hop
+alias FarList = List(gbase.Solo)
+alias FarOpt = gbase.Choice?
+'''
+
+# (type expression inside guse, already nullable)
+G_USER = ('Plain', 'Root', 'LeafA', 'Solo', 'OnlyLeaf', 'Choice', 'Shut', 'Text', 'PlainRef', 'RootRef', 'Roots', 'Hop')
+G_SHAPES = ([(p, False) for p in ('String', 'Int64', 'Float64', 'Boolean', 'Bytes', 'Timestamp("%Y-%m-%d")')] +
+            [(u, False) for u in G_USER] + [('MaybePlain', True)] +
+            [('gbase.' + u, False) for u in G_USER] + [('gbase.MaybePlain', True)] +
+            [('galias.Id', False), ('galias.Far', False), ('galias.FarHop', False), ('galias.FarList', False),
+             ('galias.FarOpt', True)])
+G_WRAPPERS = (('plain', '%s', False), ('opt', '%s?', True), ('list', 'List(%s)', False), ('list_opt', 'List(%s?)', True),
+              ('map', 'Map(String, %s)', False), ('map_list', 'Map(String, List(%s))', False),
+              ('opt_list', 'List(%s)?', False), ('map_opt', 'Map(String, %s?)', True))
+
+G_FIXED = '''
+struct Defaults
+    d0 String = "x"
+    d1 Int64 = -3
+    d2 Float64 = 1.5
+    d3 Boolean = true
+    d4 Choice = none
+    d5 gbase.Choice = none
+    d6 Text = "t"
+    d7 gbase.Text = "t"
+    d8 galias.Id = "i"
+    d9 Shut = yes
+
+struct Child extends gbase.Plain
+    c1 Int32
+
+struct Child2 extends Plain
+    c2 Int32
+
+struct Child3 extends Child
+    c3 gbase.Root?
+
+union More extends gbase.Choice
+    extra Plain
+
+union More2 extends Choice
+    extra2 gbase.Plain
+
+union_closed ShutMore extends gbase.Shut
+    maybe
+'''
+
+
+def grid_specs():
+    """[(key, files)]: one spec per wrapper; in namespace guse every shape of G_SHAPES under that wrapper is a struct
+    field, a union variant, an alias target and the argument, result and error of a route"""
+    out = []
+    for wname, wfmt, adds_null in G_WRAPPERS:
+        tys = [wfmt % expr for expr, nullable in G_SHAPES if not (adds_null and nullable)]
+        n = len(tys)
+        lines = ['namespace guse', '', 'import gbase', 'import galias', '', _g_types('u') + G_FIXED, 'struct Fields']
+        lines += ['    f%d %s' % (i, t) for i, t in enumerate(tys)]
+        lines += ['', 'union Variants', '    nothing']
+        lines += ['    v%d %s' % (i, t) for i, t in enumerate(tys)]
+        lines += ['']
+        lines += ['alias A%d = %s' % (i, t) for i, t in enumerate(tys)]
+        for i in range(n):
+            lines += ['', 'route r%d%s(%s, %s, %s)' % (i, ':2' if i % 2 else '', tys[i], tys[(i + 1) % n],
+                                                       tys[(i + 2) % n])]
+        lines += ['', 'route r0:3(Void, Void, Void)', '']
+        out.append(('grid/%s' % wname, [('gbase.stone', G_GBASE), ('galias.stone', G_GALIAS),
+                                        ('guse.stone', '\n'.join(lines))]))
+    return out
+
+
+def suite_grid(ck):
+    specs = grid_specs()
+    ck.stat('grid.specs', len(specs))
+    before = ck.stats.get('spec.compile_failed', 0)
+    run_specs(ck, specs, full=True, syntax_every=4)
+    if ck.stats.get('spec.compile_failed', 0) != before:
+        ck.note('a spec of the grid family is refused by the frontend: its cells are not explored')
+        ck.stat('grid.refused', ck.stats.get('spec.compile_failed', 0) - before)
+
+
+# ----------------------------------------------------------------------------------------------
+# attribute family: route schemas of every attribute type js_client can print (String, integers, floats, Boolean,
+# nullable and defaulted, an alias of String) x adversarial values x attribute order x void / struct argument, the
+# same route names in two namespaces. (The specgen schemas mix in Bytes / Timestamp / union attributes, on which
+# js_client crashes -- listed findings -- so most generated specs with a schema never reach the request() oracle.)
+# ----------------------------------------------------------------------------------------------
+
+A_STRINGS = ("it's", 'say "hi"', 'it\'s "both"', 'back\\slash', 'ends with \\', "\\'", '\\n', 'a\nb', 'tab\there', '',
+             ' ', '</script>', '${x}', '`tick`', '<!--', 'café 中文', '\U0001f642 smile', '\x7f', '\x01\x1f',
+             '\xa0nbsp', '\u200bzw', '\ufeff', 'null', 'true', '0', "'); alert(1); ('", '%s {} {0}', 'a,b', 'x' * 90)
+A_INTS = {'Int32': (0, 1, -1, 2 ** 31 - 1, -2 ** 31), 'UInt32': (0, 1, 2 ** 32 - 1),
+          'Int64': (0, -7, 2 ** 53 - 1, 2 ** 53 + 1, -2 ** 53 - 1, 2 ** 63 - 1, -2 ** 63),
+          'UInt64': (0, 9, 2 ** 53, 2 ** 64 - 1)}
+A_FLOATS = {'Float32': (0.0, 0.5, -2.25, 1e10, 3, 1e-07), 'Float64': (0.0, 1.5, -0.5, 1e-07, 1e16, 123456789.125, 5e-324,
+                                                                    1.7976931348623157e308, -7, 0.1)}
+A_KINDS = ('String', 'String', 'AttrText', 'Int32', 'Int64', 'UInt32', 'UInt64', 'Float32', 'Float64', 'Boolean')
+
+
+def _a_value(rng, kind):
+    if kind in ('String', 'AttrText'):
+        if rng.random() < 0.75:
+            return rng.choice(A_STRINGS)
+        return ''.join(rng.choice(specgen._STR_CH + specgen._STR_UNI) for _ in range(rng.randint(1, 12)))
+    if kind in A_INTS:
+        return rng.choice(A_INTS[kind])
+    if kind in A_FLOATS:
+        return rng.choice(A_FLOATS[kind])
+    return rng.random() < 0.5
+
+
+def attr_spec(rng, nfields=None):
+    """files of one spec: stone_cfg.Route with `nfields` attribute fields, two namespaces with the same route names"""
+    nfields = rng.randint(1, 7) if nfields is None else nfields
+    fields = []                                                  # (name, kind, mode, default)
+    for i in range(nfields):
+        kind = rng.choice(A_KINDS)
+        mode = rng.choice(('required', 'default', 'default', 'nullable', 'nullable'))
+        fields.append(('%s_%s%d' % (kind.lower()[:4], mode[0], i), kind, mode,
+                       _a_value(rng, kind) if mode == 'default' else None))
+    cfg = ['namespace stone_cfg', '', 'alias AttrText = String', '', 'struct Route']
+    if not fields:
+        cfg.append('    "No attributes."')
+    for name, kind, mode, dflt in fields:
+        cfg.append('    %s %s%s' % (name, kind, '?' if mode == 'nullable' else
+                                    (' = ' + specgen.lit(dflt)) if mode == 'default' else ''))
+    files = [('stone_cfg.stone', '\n'.join(cfg) + '\n')]
+    names = ['get', 'list_all', 'files/move', 'get', 'put_x']
+    for ns in ('aone', 'atwo'):
+        lines = ['namespace %s' % ns, '', 'struct Arg', '    x Int32', '']
+        seen = {}
+        for rname in names[:rng.randint(2, len(names))]:
+            seen[rname] = seen.get(rname, 0) + rng.choice((1, 1, 2))
+            ver = seen[rname]
+            head = 'route %s%s(%s, %s, Void)' % (rname, '' if ver == 1 else ':%d' % ver, rng.choice(('Void', 'Arg')),
+                                                 rng.choice(('Void', 'Arg')))
+            sets = [f for f in fields if f[2] == 'required' or rng.random() < 0.6]
+            rng.shuffle(sets)                                    # the order in the spec is not the schema order
+            lines.append(head)
+            if sets:
+                lines.append('    attrs')
+                for name, kind, mode, _d in sets:
+                    v = None if (mode == 'nullable' and rng.random() < 0.25) else _a_value(rng, kind)
+                    lines.append('        %s = %s' % (name, specgen.lit(v)))
+            lines.append('')
+        files.append(('%s.stone' % ns, '\n'.join(lines)))
+    return files
+
+
+def suite_attrs(ck):
+    specs = [('attrs/empty_schema', attr_spec(ck.rng, 0)), ('attrs/one_field', attr_spec(ck.rng, 1))]
+    for i in range(ck.scale(8, 80)):
+        specs.append(('attrs#%d' % i, attr_spec(ck.rng)))
+    ck.stat('attrs.specs', len(specs))
+    before = ck.stats.get('spec.compile_failed', 0)
+    run_specs(ck, specs, full=False, syntax_every=3)
+    if ck.stats.get('spec.compile_failed', 0) != before:
+        ck.note('a spec of the attribute family is refused by the frontend')
+        ck.stat('attrs.refused', ck.stats.get('spec.compile_failed', 0) - before)
 
 
 PRESET_CYCLE = ('routes', 'default', 'small', 'rt', 'fe', 'py_safe', 'routes', 'default')
